@@ -73,8 +73,15 @@ type Sim struct {
 	BufferAfter  []int // BUFFER values reported after a data frame arrives (default: the frame length, then 0)
 	NoBuffer0    bool
 	ConnectReply string // "ok", "fault", "timeout"
+	// DiscStyle: how the TNC answers DISCONNECT: "" (echo, NEWSTATE DISC, DISCONNECTED at once), "delayed" (echo at once, the
+	// two reports 300 ms later: the ARQ session takes time to end), "only-disconnected" (no echo, no NEWSTATE: DISCONNECTED only)
+	DiscStyle string
+	// EarlyData: an ARQ frame the TNC delivers right after CONNECTED, before the host has finished its dial sequence
+	EarlyData []byte
+	// NoiseBeforeBuffer: other control messages arrive between a data frame and its first BUFFER report
+	NoiseBeforeBuffer bool
 	// per data frame behaviour, keyed by the 1-based count of "D:" frames seen (retransmissions count)
-	StaleBefore  map[int][]string // control lines sent after the "D:" prefix was seen but before the frame is read: reports that
+	StaleBefore map[int][]string // control lines sent after the "D:" prefix was seen but before the frame is read: reports that
 	// crossed the frame on the line (the TNC had not received it when it sent them)
 	FaultFrames  map[int]bool  // answer this frame with CRCFAULT
 	BufferScript map[int][]int // BUFFER values reported after this frame (overrides BufferAfter)
@@ -235,7 +242,13 @@ func (s *Sim) serve() {
 					bufs = append(bufs, 0)
 				}
 			}
+			noise := s.NoiseBeforeBuffer
 			go func() {
+				if noise {
+					s.SendCmd("PTT TRUE")
+					s.SendCmd("NEWSTATE ISS")
+					s.SendCmd("PTT FALSE")
+				}
 				for i, b := range bufs {
 					if i > 0 {
 						time.Sleep(60 * time.Millisecond)
@@ -304,6 +317,9 @@ func (s *Sim) reply(cmd string) {
 				target = f[1]
 			}
 			s.SendCmd("CONNECTED " + target + " 500")
+			if s.EarlyData != nil {
+				s.SendData("ARQ", s.EarlyData)
+			}
 		case "fault":
 			s.SendCmd("FAULT not from state")
 		case "timeout":
@@ -312,10 +328,30 @@ func (s *Sim) reply(cmd string) {
 			s.SendCmd("NEWSTATE DISC")
 		}
 	case up == "DISCONNECT":
-		s.SendCmd("DISCONNECT")
-		s.State = "DISC"
-		s.SendCmd("NEWSTATE DISC")
-		s.SendCmd("DISCONNECTED")
+		switch s.DiscStyle {
+		case "delayed":
+			s.SendCmd("DISCONNECT")
+			go func() {
+				time.Sleep(300 * time.Millisecond)
+				s.State = "DISC"
+				s.Note("disc", 0)
+				s.SendCmd("NEWSTATE DISC")
+				s.SendCmd("DISCONNECTED")
+			}()
+		case "only-disconnected":
+			go func() {
+				time.Sleep(100 * time.Millisecond)
+				s.State = "DISC"
+				s.Note("disc", 0)
+				s.SendCmd("DISCONNECTED")
+			}()
+		default:
+			s.SendCmd("DISCONNECT")
+			s.State = "DISC"
+			s.Note("disc", 0)
+			s.SendCmd("NEWSTATE DISC")
+			s.SendCmd("DISCONNECTED")
+		}
 	case up == "ABORT":
 		s.SendCmd("ABORT")
 	case up == "SENDID":
